@@ -44,6 +44,14 @@ def body(ctx: H.BaseCtx):
     import numpoly
 
     case = ctx.case
+    # earlier comparisons in the same process (their results are not judged here): whatever they leave behind in module-level
+    # tables must not change the comparison under test
+    for pr in case.get("before", []):
+        try:
+            x, y = ctx.build(pr[0]), ctx.build(pr[1])
+            {"lt": lambda: x < y, "max": lambda: numpoly.maximum(x, y), "proxy": lambda: numpoly.sortable_proxy(x), "str": lambda: str(x)}[case.get("prelude", "lt")]()
+        except Exception:
+            pass
     ops = [ctx.build(s) for s in case["operands"]]
     mops = [ctx.model(s) for s in case["operands"]]
     snap = snapshot_args(ops)
@@ -119,7 +127,7 @@ def body_for(case):
 
 
 def run_case(case: Dict) -> Dict:
-    return H.simple_run_case(case, body, case["operands"])
+    return H.simple_run_case(case, body, list(case["operands"]) + [s for pr in case.get("before", []) for s in pr])
 
 
 def gen_cases(tier: str, seed: int) -> List[Dict]:
@@ -191,6 +199,24 @@ def gen_cases(tier: str, seed: int) -> List[Dict]:
             b = S.make_poly_spec("b", names, exps, (), rng, 2, mode="raw", zero_prob=0.1, literal_prob=0.3)
             n += 1
             cases.append({"id": "%s-%03d-pair-unsortednames" % (PROP, n), "op": "compare", "operands": [a, b], "options": opt, "limits": lim})
+    # call sequences: exponent tables that flatten to the same numbers but have different layouts (k terms in one indeterminate /
+    # one term in k indeterminates), compared one right after the other
+    def lit(names, exps, vals):
+        return {"kind": "poly", "names": list(names), "exps": [list(e) for e in exps], "shape": [], "slots": [[v] for v in vals], "mode": "raw"}
+
+    tables = [
+        ((("q0", "q1"), [[0, 1]]), (("q0",), [[0], [1]])),
+        ((("q0", "q1", "q2"), [[0, 1, 2]]), (("q0",), [[0], [1], [2]])),
+        ((("q0", "q1"), [[0, 1], [2, 3]]), (("q0",), [[0], [1], [2], [3]])),
+    ]
+    for opt in settings if not quick else settings[::3] + settings[1:2]:
+        for (n1, e1), (n2, e2) in tables:
+            wide = (lit(n1, e1, [2] * len(e1)), lit(n1, e1, [3] * len(e1)))
+            tall = (S.make_poly_spec("a", n2, e2, (), rng, 2, mode="raw", zero_prob=0.0, literal_prob=0.5), S.make_poly_spec("b", n2, e2, (), rng, 2, mode="raw", zero_prob=0.0, literal_prob=0.5))
+            for first, second in ((wide, tall), (tall, wide)):
+                n += 1
+                cases.append({"id": "%s-%03d-pair-sequence" % (PROP, n), "op": "compare", "operands": list(second), "before": [list(first)], "prelude": ["lt", "max", "proxy", "str"][n % 4],
+                              "options": opt, "limits": lim})
     # constants order as numbers; poly vs number
     for opt in settings[:2]:
         a = S.make_poly_spec("a", ("q0",), [[0]], (2,), rng, 2, mode="raw")
